@@ -253,7 +253,12 @@ def gen_value(r, depth=0):
         return tuple(gen_value(r, depth + 1) for _ in range(r.randrange(0, 4)))
     d = {}
     for _ in range(r.randrange(0, 4)):
-        d[pick(r, _KEYS)] = gen_value(r, depth + 1)
+        # a dict that is a VALUE of the header: its own keys are any hashable literals (flag numbers, tuples, ...)
+        if chance(r, 0.35):
+            key = pick(r, [1, 0, -3, 2 ** 40, (1, 2), ("a", 1), b"k", True, None, 2.5, (), "1"])
+        else:
+            key = pick(r, _KEYS)
+        d[key] = gen_value(r, depth + 1)
     return d
 
 
